@@ -355,14 +355,15 @@ theorem find_joins (g : List (Edge K)) (p q : GNode) (h : hasEdge g p q = true) 
 
 /-- the contribution of one consecutive pair (a, b) of a loop to the KVL sum is the potential
     rise  φ(b) − φ(a)  once the mesh currents carry the component's actual current -/
-theorem meshTerm_eval (patched : Bool) (kind : Kind) (s : K) (cs : List (Cpt K)) (g : List (Edge K))
+theorem meshTerm_eval (pe pi : Bool) (kind : Kind) (s : K) (cs : List (Cpt K)) (g : List (Edge K))
     (hg : ∀ e ∈ g, EdgeOK cs e) (loops : List (List GNode)) (x : Ix → K) (im : Nat → K)
     (hlaws : Laws kind s cs x) (hok : ∀ c ∈ cs, MeshOk kind s c)
-    (hasis : patched = false → (∀ e ∈ g, ∃ n, e.b = .real n) ∧ ∀ c ∈ cs, NoIC kind s c)
+    (hpe : pe = false → ∀ e ∈ g, ∃ n, e.b = .real n)
+    (hpi : pi = false → ∀ c ∈ cs, NoIC kind s c)
     (ab : GNode × GNode) (hadj : hasEdge g ab.1 ab.2 = true)
     (hcons : ∀ idx c, component g ab.1 ab.2 = some (idx, c) → isV c = false →
-        meshCurrent patched g loops idx c im = -(through kind s x c))
-    (t : MeshForm K) (ht : meshTerm patched kind s g loops ab = some t) :
+        meshCurrent pe g loops idx c im = -(through kind s x c))
+    (t : MeshForm K) (ht : meshTerm pe pi kind s g loops ab = some t) :
     t.eval im = gvolt x ab.2 - gvolt x ab.1 := by
   obtain ⟨a, b⟩ := ab
   simp only at hadj hcons ⊢
@@ -393,9 +394,9 @@ theorem meshTerm_eval (patched : Bool) (kind : Kind) (s : K) (cs : List (Cpt K))
     -- the value v of the code before the flip evaluates to V(n0) − V(n1)
     have hv : ∃ z v0, volEq kind s c = some (z, v0) ∧
         ((if isV c then (⟨[], v0⟩ : MeshForm K)
-          else if patched then
-            ⟨scaleCoeffs (-z) (accCoeffs (if patched then accEdge g loops idx n0 else accNames loops n0 n1)), v0⟩
-          else ⟨scaleCoeffs (-z) (accCoeffs (if patched then accEdge g loops idx n0 else accNames loops n0 n1)), -v0⟩).eval im
+          else if pi then
+            ⟨scaleCoeffs (-z) (accCoeffs (if pe then accEdge g loops idx n0 else accNames loops n0 n1)), v0⟩
+          else ⟨scaleCoeffs (-z) (accCoeffs (if pe then accEdge g loops idx n0 else accNames loops n0 n1)), -v0⟩).eval im
           = vd x n0 n1) := by
       cases hV : isV c with
       | true =>
@@ -410,14 +411,14 @@ theorem meshTerm_eval (patched : Bool) (kind : Kind) (s : K) (cs : List (Cpt K))
         refine ⟨z, v0, hvol, ?_⟩
         have hcur := hcons idx c rfl hV
         simp only [meshCurrent, hn] at hcur
-        cases patched with
+        cases pi with
         | true =>
-          simp only [if_true, Bool.false_eq_true, if_false] at hcur ⊢
+          simp only [if_true, Bool.false_eq_true, if_false]
           rw [meshEval_scale, hcur, ← hz]; ring
         | false =>
-          have hnoic := (hasis rfl).2 c hcs
+          have hnoic := hpi rfl c hcs
           simp only [NoIC, hvol, hV, Bool.false_eq_true, false_or] at hnoic
-          simp only [Bool.false_eq_true, if_false] at hcur ⊢
+          simp only [Bool.false_eq_true, if_false]
           rw [meshEval_scale, hcur, ← hz, hnoic]; ring
     obtain ⟨z, v0, hvol, hval⟩ := hv
     simp only [hn, hvol, hI, Bool.false_eq_true, if_false, Option.some.injEq] at ht
@@ -426,11 +427,11 @@ theorem meshTerm_eval (patched : Bool) (kind : Kind) (s : K) (cs : List (Cpt K))
     rcases hj with ⟨h1, h2⟩ | ⟨h1, h2⟩
     · -- traversed from the first node: flipped
       have ha : a = .real n0 := by rw [← h1, hea]
-      have hrev : (if patched then a == GNode.real n0 else (a == GNode.real n0 && b == GNode.real n1)) = true := by
-        cases patched with
+      have hrev : (if pe then a == GNode.real n0 else (a == GNode.real n0 && b == GNode.real n1)) = true := by
+        cases pe with
         | true => simp [ha]
         | false =>
-          obtain ⟨n, hn'⟩ := (hasis rfl).1 e hmem
+          obtain ⟨n, hn'⟩ := hpe rfl e hmem
           have hb : b = .real n1 := by
             rw [← h2]
             rcases heb with h | ⟨d, h⟩
@@ -450,13 +451,13 @@ theorem meshTerm_eval (patched : Bool) (kind : Kind) (s : K) (cs : List (Cpt K))
       have hb : b = .real n0 := by rw [← h1, hea]
       have hga : gvolt x a = volt x n1 := by
         rw [← h2]; rcases heb with h | ⟨d, h⟩ <;> simp [h, gvolt]
-      have hrev : (if patched then a == GNode.real n0 else (a == GNode.real n0 && b == GNode.real n1)) = false := by
+      have hrev : (if pe then a == GNode.real n0 else (a == GNode.real n0 && b == GNode.real n1)) = false := by
         have hane : (a == GNode.real n0) = false := by
           rw [← h2]
           rcases heb with h | ⟨d, h⟩
           · rw [h]; simp; exact fun h' => hne h'.symm
           · rw [h]; simp
-        cases patched <;> simp [hane]
+        cases pe <;> simp [hane]
       rw [hrev]
       simp only [Bool.false_eq_true, if_false]
       rw [hga, hb]
@@ -465,11 +466,11 @@ theorem meshTerm_eval (patched : Bool) (kind : Kind) (s : K) (cs : List (Cpt K))
       exact hval
 
 /-- the whole KVL sum of a loop -/
-theorem meshEq_eval (patched : Bool) (kind : Kind) (s : K) (g : List (Edge K)) (loops : List (List GNode))
+theorem meshEq_eval (pe pi : Bool) (kind : Kind) (s : K) (g : List (Edge K)) (loops : List (List GNode))
     (x : Ix → K) (im : Nat → K) (ps : List (GNode × GNode))
-    (hterm : ∀ ab ∈ ps, ∀ t, meshTerm patched kind s g loops ab = some t → t.eval im = gvolt x ab.2 - gvolt x ab.1)
+    (hterm : ∀ ab ∈ ps, ∀ t, meshTerm pe pi kind s g loops ab = some t → t.eval im = gvolt x ab.2 - gvolt x ab.1)
     (f : MeshForm K)
-    (hf : ps.foldr (fun ab acc => match meshTerm patched kind s g loops ab, acc with
+    (hf : ps.foldr (fun ab acc => match meshTerm pe pi kind s g loops ab, acc with
         | some t, some r => some (t.add r) | _, _ => none) (some ⟨[], 0⟩) = some f) :
     f.eval im = lsum (ps.map (fun pq => gvolt x pq.2 - gvolt x pq.1)) := by
   induction ps generalizing f with
@@ -479,11 +480,11 @@ theorem meshEq_eval (patched : Bool) (kind : Kind) (s : K) (g : List (Edge K)) (
     simp [MeshForm.eval, lsum]
   | cons ab rest ih =>
     simp only [List.foldr_cons] at hf
-    cases h1 : meshTerm patched kind s g loops ab with
+    cases h1 : meshTerm pe pi kind s g loops ab with
     | none => rw [h1] at hf; simp at hf
     | some t =>
       rw [h1] at hf
-      cases h2 : rest.foldr (fun ab acc => match meshTerm patched kind s g loops ab, acc with
+      cases h2 : rest.foldr (fun ab acc => match meshTerm pe pi kind s g loops ab, acc with
           | some t, some r => some (t.add r) | _, _ => none) (some ⟨[], 0⟩) with
       | none => rw [h2] at hf; simp at hf
       | some r =>
